@@ -67,6 +67,10 @@ func main() {
 		return a
 	}
 	*out, *stats, *desc, *replay = abs(*out), abs(*stats), abs(*desc), abs(*replay)
+	if prop == "GEN" {
+		cmdGen(*out)
+		return
+	}
 	if *desc != "" {
 		f, err := os.Create(*desc)
 		must(err)
@@ -75,8 +79,12 @@ func main() {
 		defer descWriter.Flush()
 	}
 	switch prop {
+	case "GEN":
+		cmdGen(*out)
 	case "C05":
 		cmdC05(*tier, *seed, *out, *stats, *replay)
+	case "C16", "C17":
+		cmdC16(prop, *tier, *seed, *out, *stats, *replay)
 	case "C15":
 		cmdC15(*tier, *seed, *out, *stats, *replay)
 	case "C14":
